@@ -283,7 +283,7 @@ pub fn run(tier: Tier) -> i32 {
                     for dir in [None, Some("l10n".to_string())] {
                         // .. and with an unknown field among them, in every position: it is ignored wherever it stands
                         // (1: a name of its own; 2, 3: the known names spelled with `_` - they are unknown fields too)
-                        for unknown in 0..4usize {
+                        for unknown in 0..6usize {
                             let n_fields = 2 + ns.is_some() as usize + !inh.is_empty() as usize + dir.is_some() as usize + (unknown > 0) as usize;
                             let n_perms: usize = (1..=n_fields).product();
                             for fo in 0..n_perms {
@@ -298,7 +298,10 @@ pub fn run(tier: Tier) -> i32 {
                                         0 => vec![],
                                         1 => vec!["editor-hint = \"x\"".to_string()],
                                         2 => vec!["locales_dir = \"nowhere\"".to_string()],
-                                        _ => vec!["translations_path = { dev = 1, prod = 2 }".to_string()],
+                                        3 => vec!["translations_path = { dev = 1, prod = 2 }".to_string()],
+                                        // values that span several lines, some of which start with `[`
+                                        4 => vec!["review-pairs = [\n    [\"en\", \"fr\"],\n    [\"fr\", \"de\"],\n]".to_string()],
+                                        _ => vec!["notes = \"\"\"\nsee\n[package.metadata.leptos-i18n] and\n[dependencies]\n\"\"\"".to_string()],
                                     },
                                     ..Default::default()
                                 };
@@ -400,7 +403,7 @@ pub fn run(tier: Tier) -> i32 {
         rep.sample(json!({"manifest": manifest(&cases[j].cfg, cases[j].surround), "expectation": format!("{:?}", expectation(&cases[j].cfg))}));
     }
     let mut cov = serde_json::Map::new();
-    cov.insert("rule".into(), json!("locales in {missing} + every list of length 0..=3 over {en,fr,de} (duplicates included) x default in {en,fr,de,it (unlisted),missing} x namespaces in {absent,[a],[a,b],[b,a],[a,a],[]} x inherits in {none} + every single entry over {en,fr,de,it,xx}^2 (thorough: + five 2-entry maps) x (locales-dir in {absent,./l10n,a/b/,l10n/,locales,../shared_l10n,.hidden,./.dot/x,..//up,an absolute path} x 10 surrounding-manifest shapes (other tables before / after, comments, the table first or alone in the file, indented, CRLF line ends, the header's text quoted in a comment) x unknown fields: rotated in quick, a third of the product in thorough); (YAML build: the files carry .yaml / .yml in four patterns: all one, all the other, alternating either way, in loading order) plus every order of the table's fields for 36 configurations (unlisted default, inherits entries naming it, namespaces, custom directory), each also with an unknown field among them in every position (a name of its own; `locales_dir` and `translations_path`, the known names spelled with an underscore); the directory holds valid files for exactly the expected (namespace, locale) pairs and unparsable decoys everywhere else (other extension, unlisted locale/namespace, default dir when a custom one is set, top-level vs namespace layout); oracle: accept iff required fields present, no duplicates, inherits names known locales (the default counts even if unlisted) and not the default as key; on accept default first, same set, fields as written, tracked files == expected paths; distinct_nontrivial = distinct i18n tables"));
+    cov.insert("rule".into(), json!("locales in {missing} + every list of length 0..=3 over {en,fr,de} (duplicates included) x default in {en,fr,de,it (unlisted),missing} x namespaces in {absent,[a],[a,b],[b,a],[a,a],[]} x inherits in {none} + every single entry over {en,fr,de,it,xx}^2 (thorough: + five 2-entry maps) x (locales-dir in {absent,./l10n,a/b/,l10n/,locales,../shared_l10n,.hidden,./.dot/x,..//up,an absolute path} x 10 surrounding-manifest shapes (other tables before / after, comments, the table first or alone in the file, indented, CRLF line ends, the header's text quoted in a comment) x unknown fields: rotated in quick, a third of the product in thorough); (YAML build: the files carry .yaml / .yml in four patterns: all one, all the other, alternating either way, in loading order) plus every order of the table's fields for 36 configurations (unlisted default, inherits entries naming it, namespaces, custom directory), each also with an unknown field among them in every position (a name of its own; `locales_dir` and `translations_path`, the known names spelled with an underscore; values spanning several lines, some starting with `[`); the directory holds valid files for exactly the expected (namespace, locale) pairs and unparsable decoys everywhere else (other extension, unlisted locale/namespace, default dir when a custom one is set, top-level vs namespace layout); oracle: accept iff required fields present, no duplicates, inherits names known locales (the default counts even if unlisted) and not the default as key; on accept default first, same set, fields as written, tracked files == expected paths; distinct_nontrivial = distinct i18n tables"));
     cov.insert("exhaustive".into(), json!(true));
     cov.insert("outcome_classes".into(), json!(*classes.lock().unwrap()));
     cov.insert("front_end".into(), json!(ext));
